@@ -17,12 +17,104 @@ def stall_case(rng, maxq, npk, gop_len, stall_from, resume_at, gop=True, h265=Fa
     sched += [[G.CONS, 0], [G.CONS, 1]] * 4
     return [G.FIXED, 2, maxq, gop, pkts, [0, 0], sched, [0, 0], False, 1, h265]
 
+# ---- packets given by their bytes (coq/Model/C04RawPkt.v): (id _ channel payload) -----------------------
+# What is not on the video channel (audio, the two RTCP channels) must never count as a key-frame start,
+# whatever its first bytes look like: G.711 and other raw-sample audio has arbitrary first bytes, and one
+# value in 32 looks like an IDR NAL header.  The id sits in payload[1..4] (the harness reads it back from
+# there), so the id's high bytes double as the second and third payload byte (FU headers).
+VIDEO, VRTCP, AUDIO, ARTCP = 0, 1, 2, 3
+
+def lookalike(rng, h265):
+    """(first payload byte, high 16 bits of the id) that the codec's classifier would take for a key-frame
+    start or a parameter set if the packet were video"""
+    if not h265:
+        r = rng.random()
+        if r < 0.45:
+            return (rng.randrange(8) << 5) | 5, 0                      # IDR
+        if r < 0.65:
+            return (rng.randrange(8) << 5) | rng.choice([7, 8]), 0     # SPS / PPS
+        if r < 0.85:
+            return (rng.randrange(8) << 5) | 28, (0x80 | rng.choice([5, 5, 7, 8])) << 8   # FU-A start of an IDR / SPS / PPS
+        return rng.randrange(256), rng.randrange(256) << 8
+    r = rng.random()
+    if r < 0.45:
+        return (rng.randrange(2) << 7) | (rng.randint(16, 21) << 1) | rng.randrange(2), 0   # IRAP
+    if r < 0.65:
+        return (rng.choice([32, 33, 34]) << 1) | rng.randrange(2), 0                        # VPS / SPS / PPS
+    if r < 0.85:
+        return (49 << 1) | rng.randrange(2), 0x80 | rng.choice([19, 20, 21, 32, 33])       # FU start of an IRAP / VPS / SPS
+    return rng.randrange(256), rng.randrange(65536)
+
+def raw_pkt(rng, n, ch, b0, hi16=0, tail=None):
+    pid = (hi16 << 16) | n
+    tail = bytes(rng.randrange(256) for _ in range(rng.randint(3, 8))) if tail is None else tail
+    return [pid, 0, ch, bytes([b0]) + pid.to_bytes(4, "big") + tail]
+
+def rawify(rng, case, p=0.7):
+    """replace packets that are not on the video channel (kind 0) by look-alikes given by their bytes, on the
+    audio channel or on one of the RTCP channels; now and then G.711 instead of AAC in the SDP"""
+    if case[8]:            # FLV tags: no channels
+        return case
+    case = list(case) + [False] * (13 - len(case))
+    h265 = bool(case[10])
+    out = []
+    for pk in case[4]:
+        if pk[1] == 0 and pk[0] < 65536 and rng.random() < p:
+            b0, hi = lookalike(rng, h265)
+            out.append(raw_pkt(rng, pk[0], rng.choice([AUDIO, AUDIO, AUDIO, VRTCP, ARTCP]), b0, hi))
+        else:
+            out.append(pk)
+    case[4] = out
+    case[12] = rng.random() < 0.5
+    return case
+
+def lookalike_script(rng, h265, ch, maxq, gop_len):
+    """A consumer stalls from the start until its backlog is over the limit and the stream is in the middle of
+    a GOP, is over the limit at the next key-frame start (dropping begins), then drains completely while the
+    GOP goes on; the rest of that GOP and the next one contain packets that are not video but look like a
+    key-frame start.  Dropping has to go on until the next video key-frame start."""
+    key_b0 = (19 << 1) if h265 else 0x65
+    pkts, n = [], 0
+    def video(kind):
+        nonlocal n
+        n += 1
+        pkts.append([n, kind])
+    def other(key_like):
+        nonlocal n
+        n += 1
+        b0, hi = (key_b0 | (rng.randrange(2) if h265 else rng.randrange(4) << 5), 0) if key_like else lookalike(rng, h265)
+        pkts.append(raw_pkt(rng, n, ch, b0, hi))
+    sched = [[G.ATT, 0]] * 3 + [[G.ATT, 1]] * 3
+    def publish(upto, drain1):
+        nonlocal sched
+        while len(pkts_done) < upto:
+            pkts_done.append(1)
+            sched += [[G.PUB, 0]] * 3 + [[G.CONS, 0]] * 2 + ([[G.CONS, 1]] * 2 if drain1 else [])
+    pkts_done = []
+    gops = (maxq + 2) // gop_len + 2
+    for g in range(gops + 2):
+        if rng.random() < 0.5:
+            video(3); video(4)
+        video(2)
+        for i in range(gop_len - 1):
+            if i % 2 == 0:
+                video(1)
+            else:
+                other(key_like=(g >= gops - 1) or rng.random() < 0.3)
+    # consumer 1 stalled until the middle of GOP number gops-1 (over the limit since at least one key-frame start)
+    stall_until = next(i for i, p in enumerate(pkts) if p[0] == [q for q in pkts if q[1] == 2][gops - 1][0]) + 2
+    publish(stall_until, False)
+    sched += [[G.CONS, 1]] * (2 * (stall_until + 4))          # drains completely
+    publish(len(pkts), True)
+    sched += [[G.CONS, 0], [G.CONS, 1]] * 4
+    return [G.FIXED, 2, maxq, rng.random() < 0.5, pkts, [0, 0], sched, [0, 0], False, 1, h265, False, rng.random() < 0.5]
+
 def run(ck):
     if not ck.prepare():
         return ck.finish(rule="build failed")
     rng = ck.rng
     cases = []
-    for _ in range(40 if not ck.thorough else 600):
+    for _ in range(36 if not ck.thorough else 600):
         maxq = rng.randint(2, 8)
         npk = rng.randint(10, 60)
         g = rng.randint(1, 9)
@@ -34,6 +126,15 @@ def run(ck):
     for _ in range(1 if not ck.thorough else 12):
         npk = rng.randint(1100, 1250) if not ck.thorough else rng.randint(1300, 1800)
         cases.append(stall_case(rng, 1000, npk, rng.choice([25, 50, 120]), rng.randint(0, 50), rng.randint(1080, npk)))
+    # packets that are not video but look like key-frame starts / parameter sets, given by their bytes
+    cases = [rawify(rng, c) if rng.random() < 0.75 else c for c in cases]
+    scripts = []
+    for h265 in (False, True):
+        for ch in (AUDIO, VRTCP, ARTCP) if ck.thorough else (AUDIO, rng.choice([VRTCP, ARTCP])):
+            for _ in range(1 if not ck.thorough else 6):
+                scripts.append(lookalike_script(rng, h265, ch, rng.randint(2, 5), rng.randint(4, 8)))
+    ck.stream("not-video-looks-like-key", scripts, "C04_lts", "C04_lts", "C04_ok",
+              nontrivial=lambda c: True, sig=lambda c, e, o: "lts-lookalike", timeout=900)
     ck.stream("stall-resume+random", cases, "C04_lts", "C04_lts", "C04_ok",
               nontrivial=lambda c: len(c[4]) > 5, sig=lambda c, e, o: "lts", timeout=1500)
     return ck.finish(rule="stall/resume scripts (one fast and one stalled consumer, key spacing 1..9, limit 2..8 set through "
